@@ -335,7 +335,10 @@ func (k Keeper) ConvertGasFeesToUsdc(ctx sdk.Context, baseCurrency string, addre
 			continue
 		}
 
-		tokenOutAmount, err := k.amm.InternalSwapExactAmountIn(ctx, address, address, pool, tokenIn, baseCurrency, math.ZeroInt(), math.LegacyZeroDec())
+		// The conversion runs on a cache context: a swap that fails half way (missing price,
+		// hook rejection) must neither fail block processing nor leave partial effects behind.
+		cacheCtx, write := ctx.CacheContext()
+		tokenOutAmount, err := k.amm.InternalSwapExactAmountIn(cacheCtx, address, address, pool, tokenIn, baseCurrency, math.ZeroInt(), math.LegacyZeroDec())
 		if err != nil {
 			// Continue as we can swap it when this amount is higher
 			if err == ammtypes.ErrTokenOutAmountZero {
@@ -349,8 +352,11 @@ func (k Keeper) ConvertGasFeesToUsdc(ctx sdk.Context, baseCurrency string, addre
 				})
 				continue
 			}
-			return sdk.Coins{}, err
+			// the amount stays in the wallet and is retried in a later block
+			ctx.Logger().Error("Failed to convert fees to usdc", "denom", tokenIn.Denom, "error", err)
+			continue
 		}
+		write()
 
 		// Swapped USDC coin
 		swappedCoins := sdk.NewCoins(sdk.NewCoin(baseCurrency, tokenOutAmount))
